@@ -46,10 +46,42 @@ def _undecided(vals):
     return False
 
 
+# Library routines whose meaning the rules' expected values are written in (or that the engine gives a value to).  An application of anything else inside a value
+# that fails a comparison is an idiom the checker does not know - "np.pad(...)", a method of an object, a ufunc with where= - and the verdict is "not decided".
+KNOWN_CALLS = {
+    "np.mean", "np.sum", "np.cumsum", "np.cumprod", "np.prod", "np.all", "np.any", "np.max", "np.min", "np.amax", "np.amin", "np.argmax", "np.argmin", "np.diff",
+    "np.interp", "interp1d", "signal.lfilter", "signal.upfirdn", "signal.windows.kaiser", "np.sinc", "np.arange", "np.transpose", "np.swapaxes", "np.ravel", "np.searchsorted",
+    "np.nonzero", "np.flatnonzero", "np.log10", "np.log2", "np.sqrt", "np.round", "round", "np.linspace", "np.std", "np.var", "np.median", "np.nanmean", "np.average",
+    "np.expand_dims", "np.column_stack", "np.stack", "np.array_equal", "np.count_nonzero", "np.argsort", "np.sort", "np.repeat", "np.tile", "np.floor", "np.ceil",
+    "math.gcd", "np.gcd", "np.sign", "np.dot", "np.take", "np.squeeze", "np.flatten", "np.reshape", "np.where", "np.argwhere", "np.unique", "np.isnan", "np.isfinite",
+}
+
+
+def _unrecognised(vals):
+    """names of the applications inside the values that are not library routines the rules know (methods of unknown objects, unknown functions, ufunc keywords)"""
+    out = []
+
+    def pred(n, a):
+        if n.startswith("call:") and n[5:] not in KNOWN_CALLS:
+            out.append(n[5:])
+        elif n in ("kw:where", "kw:out", "kw:initial"):
+            out.append(n)
+        return False
+    for v in vals:
+        if isinstance(v, tuple):
+            out.extend(_unrecognised(list(v)))
+        elif israt(v):
+            find_atoms(v, pred)
+    return sorted(set(out))
+
+
 def _chk(ctx, ok, msg, where, detail=None, vals=(), **kw):
     """ctx.check, except that a mismatch on a value that is not decided is an analysis error (cannot bind), never a violation"""
     if not ok and _undecided(vals):
         ctx.error(msg, where, {"not decided": [_short(v) for v in vals if _undecided([v])][:3], "detail": detail})
+        return False
+    if not ok and _unrecognised(vals):
+        ctx.error(msg, where, {"not decided": "the value is built with routines the checker does not know", "routines": _unrecognised(vals)[:6], "detail": detail})
         return False
     return ctx.check(ok, msg, where, detail, **kw)
 
@@ -432,7 +464,7 @@ def r2_interp(ctx):
 
     # ---- log-log regime.  Accepted forms of the value returned (A = interp1d(...)(q), m the in-range mask):
     #   store(A, m, exp(A[m]))      exp written back into the in-range slots (out-of-range keeps the fill value)
-    #   ite(m, exp(A), 0)           np.where(m, exp(A), 0)
+    #   ite(m, exp(A), 0)           np.where(m, exp(A), 0)   (also np.where(m, exp(A), A))
     #   store(exp(A), not m, 0)     exp of everything, out-of-range zeroed
     R, v, mk = regime(False)
     A = mask = None
@@ -455,7 +487,8 @@ def r2_interp(ctx):
             A = F.log(it[1])
         except Unsupported:
             A = None
-        form_ok = A is not None and un(A, "apply") is not None and eq(it[2], F.const(0))
+        # (np.where(m, exp(A), A): the out-of-range results keep the value interp1d gave them, the fill value - the same array as the masked store)
+        form_ok = A is not None and un(A, "apply") is not None and (eq(it[2], F.const(0)) or eq(it[2], A))
     else:
         A = v
     a, q = applied(A)
@@ -522,6 +555,68 @@ def _last_axis_slice(ix):
     return unslice(parts[0])
 
 
+class _Layout:
+    """The array handed to the filter, read along its last axis: `total` samples, all zero except positions off + stride * j (j = 0 .. ln - 1), which hold
+    sample j of `signal`.  However the array was put together - zeros concatenated around a zero-stuffed array, the samples written straight into one
+    zero buffer that already has room for the padding, no stuffing at all - there is one such description, and the lag bookkeeping speaks about it only:
+    `off` is the front padding, total - off - ln * stride the padding behind the stuffed signal."""
+
+    def __init__(self, total, off, stride, signal, buffer=None, slot=None, cat_axes=(), core=None, stop=None):
+        self.total, self.off, self.stride, self.signal, self.buffer, self.slot = total, off, stride, signal, buffer, slot
+        self.cat_axes = list(cat_axes)          # axis of every concatenation that built the array
+        self.core = core                        # length of the array the samples were stored in / of the signal itself (before anything was concatenated to it)
+        self.stop = stop                        # explicit end of the slots the samples were stored in (None: to the end of the buffer)
+        self.slot_start = off                   # first slot, counted in the buffer itself (off counts in the whole filter input)
+
+
+def _layout(R, x, ln):
+    """-> _Layout of the filter input x (ln: the number of samples of the signal along the last axis; R: the run, for the sign facts of the regime)"""
+    if x is None or not israt(x):
+        raise Unsupported(f"the filter input: {_short(x)}")
+    c = un(x, "cat")
+    if c is not None:
+        inner, before, total = None, None, F.const(0)
+        for part in c[1:]:
+            if un(part, "zeros") is not None:
+                n = _last_dim(part)
+                if n is None:
+                    raise Unsupported("length of the padding")
+                total = total + n
+                continue
+            if inner is not None:
+                raise Unsupported("the filter input is not zeros around one array")
+            inner, before = _layout(R, part, ln), total
+            total = total + inner.total
+        if inner is None:
+            raise Unsupported("the filter input is not zeros around one array")
+        out = _Layout(total, before + inner.off, inner.stride, inner.signal, inner.buffer, inner.slot, [c[0]] + inner.cat_axes, inner.core, inner.stop)
+        out.slot_start = inner.slot_start
+        return out
+    st = un(x, "store")
+    if st is not None:
+        buf, slot, sig = st
+        n = _last_dim(buf) if un(buf, "zeros") is not None else None
+        sl = _last_axis_slice(slot)
+        if sl is None:
+            raise Unsupported(f"the samples are not stored in a slice along the last axis of the filter input: {_short(slot)}")
+        probe = S.V(R.sh.scratch())
+
+        def bound(b):
+            """a slice bound the regime's facts show to be negative counts from the end of the buffer"""
+            if b is None or probe.truth(S.lt0(b)) is not True:
+                return b
+            if n is None:
+                raise Unsupported("a slice bound counted from the end of a buffer of unknown length")
+            return n + b
+        lo_, hi_ = bound(sl[0]), bound(sl[1])
+        # (n None: not a zero array of visible length - the obligations that need the length / the zeros report it)
+        return _Layout(n, lo_ if lo_ is not None else F.const(0), sl[2] if sl[2] is not None else F.const(1), sig, buf, slot, [], n, hi_)
+    u = S.unfn(x)
+    if u is not None and (u[0].startswith("call:") or u[0] in ("apply", "ite", "idx", "zeros")):
+        raise Unsupported(f"the filter input is built in a way that is not modelled: {_short(x)}")
+    return _Layout(ln, F.const(0), F.const(1), x, None, None, [], ln, None)
+
+
 class _Resampled:
     """roles in one regime of dsp.resample, read from the value returned"""
 
@@ -559,23 +654,12 @@ class _Resampled:
             if one is not None and len(one) == 1:
                 self.den = one[0]              # lfilter(b, [1.0], x)
             self.rate = F.const(1)             # output sample k is full-rate sample k
-            c = un(x, "cat") if x is not None else None
-            if c is not None:
-                if len(c) != 4:
-                    raise Unsupported("the filter input is not [zeros, signal, zeros]")
-                self.cat_axis = c[0]
-                self.pad_front, self.pad_back = _last_dim(c[1]), _last_dim(c[3])
-                if self.pad_front is None or self.pad_back is None:
-                    raise Unsupported("length of the padding")
-                x = c[2]
-            st = un(x, "store") if x is not None else None
-            if st is not None:
-                self.buffer, self.slot, self.signal = st
-            else:
-                u = S.unfn(x) if x is not None else None
-                if x is None or (u is not None and (u[0].startswith("call:") or u[0] in ("apply", "cat", "ite", "idx"))):
-                    raise Unsupported(f"the filter input is built in a way that is not modelled: {_short(x)}")
-                self.buffer, self.slot, self.signal = None, None, x
+            ln = R.E("data.shape[-1]")
+            lay = self.layout = _layout(R, x, ln)
+            self.buffer, self.slot, self.signal = lay.buffer, lay.slot, lay.signal
+            self.pad_front = lay.off           # full-rate position of the first sample in the array that is filtered
+            self.pad_back = lay.total - lay.off - ln * lay.stride if lay.total is not None else None          # what follows the ln * stride slots of the stuffed signal
+            self.cat_axis = None if not lay.cat_axes else lay.cat_axes[0] if all(eq(a_, lay.cat_axes[0]) for a_ in lay.cat_axes) else F.sym("<mixed>")
         elif self.routine == "upfirdn":
             a = placed("signal.upfirdn", args)
             self.fir, self.den, self.axis = a.get("h"), F.const(1), a.get("axis", F.const(-1))
@@ -588,12 +672,17 @@ class _Resampled:
     def stuff_step(self):
         if self.up is not None:
             return self.up
-        if self.slot is None:
-            return F.const(1)
-        sl = _last_axis_slice(self.slot)
-        if sl is None or sl[0] is not None or sl[1] is not None:
+        return self.layout.stride
+
+    def slots(self, ln):
+        """True: the slice the samples are stored in has exactly ln slots (numpy would raise otherwise) | None: not decided"""
+        lay = self.layout
+        if lay.slot is None:
+            return True
+        end = lay.stop if lay.stop is not None else lay.core          # (core: the length of the buffer itself)
+        if end is None:
             return None
-        return sl[2] if sl[2] is not None else F.const(1)
+        return True if eq(end - lay.slot_start, ln * lay.stride) else None
 
 
 def _last_axis_mean(mu, data):
@@ -646,7 +735,7 @@ def r3_resample(ctx):
 
     def regime(qone=False, t=False):
         pins = {"axis": "-1", "getfir": "False"}
-        facts = ["p // g > 1", "p > 1", "q > 1"]          # (p >= p / gcd > 1; q >= gcd >= 1 and q = gcd only in the q' = 1 regime, where q is pinned)
+        facts = ["p // g > 1", "p > 1", "q > 1", "pts > 0"]          # (p >= p / gcd > 1; q >= gcd >= 1 and q = gcd only in the q' = 1 regime, where q is pinned; the FIR has taps)
         if qone:
             pins["q"] = "g"                # q' = 1  <=>  q = gcd(p, q)
             facts.remove("q > 1")
@@ -715,7 +804,11 @@ def r3_resample(ctx):
     firexp = R.E(f"P * signal.windows.kaiser(M + 1, beta) * (2 * {cutoff} * np.sinc(2 * {cutoff} * (np.arange(M + 1) - M / 2)))", P=Pr, Q=Qr, M=M)
     ok = israt(fir) and eq(fir, firexp) and eq(D.den, F.const(1)) and eq(D.axis, F.const(-1))
     if D.routine == "lfilter":
-        ok = ok and eq(D.pad_front, M / 2) and eq(D.pad_back, M / 2) and D.cat_axis is not None and eq(D.cat_axis, F.const(-1))
+        if D.pad_back is None:
+            ctx.error("resample: length of the array that is filtered", R.ret_node(), {"buffer": _short(D.buffer)})
+            ok = False
+        # (the padding may be concatenated to the stuffed array or be part of the zero buffer the samples are written into: both are read off the array that is filtered)
+        ok = ok and eq(D.pad_front, M / 2) and D.pad_back is not None and eq(D.pad_back, M / 2) and (D.cat_axis is None or eq(D.cat_axis, F.const(-1)))
         if D.stop is not None:
             # an explicit stop: ceil((stop - start) / step) samples are retained
             span = D.stop - D.start
@@ -737,12 +830,19 @@ def r3_resample(ctx):
         ctx.error("resample: what is removed from the data before filtering (expected: the mean along the last axis)", fn, _short(D.signal))
     if D.routine == "lfilter":
         zshape = un(D.buffer, "zeros") if D.buffer is not None else None
-        ok = D.buffer is not None and zshape is not None and eq(_last_dim(D.buffer), R.E("data.shape[-1] * P", P=Pr)) and eq(ss, Pr) and mean_ok
+        lay = D.layout
+        lnp = R.E("data.shape[-1] * P", P=Pr)
+        nslots = D.slots(R.E("data.shape[-1]"))
+        if nslots is None:
+            ctx.error("resample: the slice of the zero array the samples are stored in has ln slots", fn, {"slot": _short(D.slot), "buffer": _short(D.buffer)})
+        # the zero array spans the ln p slots of the stuffed signal: on its own (padding concatenated afterwards), or together with the padding (one buffer)
+        span = lay.core is not None and (eq(lay.core, lnp) or (not lay.cat_axes and lay.total is not None and eq(lay.total - lay.off - D.pad_back, lnp) and eq(D.pad_back, M / 2)))
+        ok = D.buffer is not None and zshape is not None and span and eq(ss, Pr) and mean_ok
         msg = "resample: zero stuffing places the (mean-removed) samples every p-th slot of a zero array of length ln p (original samples are kept when upsampling)"
     else:
         ok = eq(ss, Pr) and mean_ok
         msg = "resample: the (mean-removed) samples are up-sampled by p with zeros (original samples are kept when upsampling)"
-    if mean_ok is not None:
+    if mean_ok is not None and not (D.routine == "lfilter" and nslots is None):
         chk(bool(ok), msg, fn, None if ok else {"buffer": _short(D.buffer), "slot": _short(D.slot), "signal": _short(D.signal)})
 
 
@@ -760,6 +860,53 @@ def r4_rescale(ctx):
     fn = ctx.src.func(PSD, "rescale")
     for shape in ("matrix", "vector", "row"):
         _rescale_regime(ctx, fn, shape)
+
+
+def _assembled(R, v):
+    """An array filled block by block in a preallocated buffer, as the concatenation it equals (first axis):
+         B[0] = a ; B[1:] = X   ->  [a, X]            B = zeros((n, c)) ; B[1:] = X    ->  [zeros((1, c)), X]
+         B[:-1] = X ; B[-1] = b ->  [X, b]            B = zeros((n, c)) ; B[:-1] = X   ->  [X, zeros((1, c))]
+    (the stores in any order; numpy checks that the blocks fit).  Anything else is returned as it is."""
+    if not israt(v) or un(v, "store") is None:
+        return v
+    stores, base = [], v
+    while un(base, "store") is not None:
+        a = un(base, "store")
+        stores.append((a[1], a[2]))
+        base = a[0]
+    kind = next((nm for nm in ("zeros", "empty", "ones") if un(base, nm) is not None), None)
+    if kind is None:
+        return v
+    shp = un(un(base, kind)[0], "tuple")
+    if shp is not None and len(shp) != 2:
+        return v
+    slot = {}
+    for ix, val in stores:
+        k, sl = int_of(ix), unslice(ix)
+        if k in (0, -1):
+            key = "head" if k == 0 else "tail"
+        elif sl is not None and sl[2] is None and sl[0] is not None and int_of(sl[0]) == 1 and sl[1] is None:
+            key = "after"
+        elif sl is not None and sl[2] is None and sl[0] is None and sl[1] is not None and int_of(sl[1]) == -1:
+            key = "before"
+        else:
+            return v
+        if key in slot:
+            return v
+        slot[key] = val
+    stack = "np.vstack" if shp is not None else "np.hstack"
+
+    def blank():
+        return R.ev.np_call("np.zeros", [PyTuple((F.const(1), shp[1]))], {}, None) if shp is not None else F.const(0)
+    if set(slot) <= {"head", "after"} and "after" in slot:
+        if "head" not in slot and kind != "zeros":
+            return v
+        return R.ev.np_call(stack, [PyTuple((slot.get("head", None) if "head" in slot else blank(), slot["after"]))], {}, None)
+    if set(slot) <= {"tail", "before"} and "before" in slot:
+        if "tail" not in slot and kind != "zeros":
+            return v
+        return R.ev.np_call(stack, [PyTuple((slot["before"], slot["tail"] if "tail" in slot else blank()))], {}, None)
+    return v
 
 
 def _rescale_regime(ctx, fn, shape):
@@ -791,6 +938,12 @@ def _rescale_regime(ctx, fn, shape):
         k = S._strsym(c.loops[-1].k) if c.loops else None
         return {key: (v.subs({k: COL}) if k and israt(v) else v) for key, v in c.args.items()}
     a, b = generic(ip[0]), generic(ip[1])
+    for d_ in (a, b):
+        # (a table / a curve assembled block by block in a preallocated array is the concatenation of the blocks)
+        d_["xp"] = _assembled(R, d_["xp"])
+        c_ = un(d_["fp"], "idx")
+        if c_ is not None:
+            d_["fp"] = R.ev.mk_idx(_assembled(R, c_[0]), c_[1])
     # the table and the curve
     ok = R.same(a["xp"], f"np.hstack(({lo_in}[0], {hi_in}))")
     _chk(ctx, ok, f"{tag} (uniform input spacing): the cumulative curve is tabulated at the input band edges [first lower edge, every upper edge], the edges being "
@@ -822,7 +975,7 @@ def _rescale_regime(ctx, fn, shape):
             bufs.append(None)
             continue
         per_col = len(cparts) == 2 and eq(cparts[1], COL) and any(eq(loop.n, w) for w in trips)
-        cell = next((x for x in R.cells if eq(x.val, c.value)), None)
+        cell = next((x for x in R.cells if eq(x.val, c.value) and israt(x.new) and israt(x.ix)), None)
         if cell is not None:
             # stored into column k of a zero array inside the loop
             sp = ix_parts(cell.ix) if israt(cell.ix) else []
